@@ -186,6 +186,15 @@ def wfItem (g : G) : Item → Bool
   | .content _ gen _ => gen == g.ngen - 1
   | .nop => true
 
+/-- One record may carry several contents but at most ONE rotation: `AclState.keys` and
+`readKeyChanges` are indexed by record id, so a second rotation in the same record would overwrite the
+first one's entry and break `unpackAllKeys` for every account admitted later (`applyReadKeyChange`
+refuses it with `ErrReadKeyChangeNotAlone`, for the stand-alone and for the nested rotation alike). With
+this guard every rotation has its own record id, which is what lets the model identify generations with
+positions in the flat content log. -/
+def recOk (contents : List Item) : Bool :=
+  (contents.filter (fun it => match it with | .rotate .. => true | _ => false)).length ≤ 1
+
 def wfFrom : G → List Item → Bool
   | _, [] => true
   | g, it :: rest => wfItem g it && wfFrom (gstep g it) rest
